@@ -18,7 +18,9 @@ LEVEL_TEXT = ('Proof + oracle: Lean theorems over the multimap model — the ass
 LEVEL_NOTE = 'Trusted: Lean kernel; correspondence on generated histories; the Python reference fold used as the statement of the rule for the command-level oracle.'
 TECHNIQUE = 'Lean 4 proofs about the lookup folds over an ordered-multimap model + correspondence + command-level oracle'
 
-VALS = ['a', 'b', 'x=1', 'x=2', 'y=3 z=4', 'a b', '"q r"', 'y=', '=v', 'n=a=b', 'true', 'no', 'é', '%h', '']
+VALS = ['a', 'b', 'x=1', 'x=2', 'y=3 z=4', 'a b', '"q r"', 'y=', '=v', 'n=a=b', 'true', 'no', 'é', '%h', '',
+        # assignments that *look* empty but are not an empty assignment (no reset): a quoted empty word, a quoted blank
+        '""', "''", '" "']
 
 
 def gen_history(rnd):
@@ -110,6 +112,10 @@ def ref_list(hist):
 
 
 def simple_words(v):
+    if v in ('""', "''"):
+        return ['']
+    if v == '" "':
+        return [' ']
     return v.replace('"', '').split(' ') if v != '"q r"' else ['q r']
 
 
